@@ -34,6 +34,7 @@ ASSUMPTIONS = [
     "hang = more than 20 s of user CPU time for one case (inputs <= 64 KiB); wall-clock time is never a verdict",
     "cbor / msgpack / encryptor serializers not exercised (dependencies absent)",
     "harness subclasses of the public base classes raise only their declared errors from deserialize()/load_from_file()",
+    "pickle inputs whose opcodes make the unpickler allocate by a number taken from the input (memo index > 100000, oversized FRAME) are skipped: that is pickle's documented unsafety, not a property of the library",
 ]
 REQUIRED = [
     "errors_seen:line",
@@ -303,8 +304,28 @@ def run_oneshot(ctx, cfg: gen.Config, data: bytes) -> tuple[int, int, Any]:
         return 0, 0, ("foreign", _check_exc(exc), exc)
 
 
+def _pickle_resource_bomb(data: bytes) -> bool:
+    """pickle's own documented unsafety (not the library's): opcodes that make the unpickler allocate by a number taken from
+    the input (memo index, announced length) far beyond the input size. Such inputs are not fed to pickle-based configurations."""
+    import pickletools
+
+    for start in {0, *(i + 1 for i, b in enumerate(data) if b == 0x2E)}:  # every pickle in the stream
+        try:
+            for op, arg, _pos in pickletools.genops(data[start:]):
+                if op.name in ("LONG_BINPUT", "LONG_BINGET", "PUT", "GET", "BINPUT", "BINGET") and isinstance(arg, int) and arg > 100_000:
+                    return True
+                if op.name == "FRAME" and isinstance(arg, int) and arg > 10 * len(data) + 1000:
+                    return True
+        except Exception:  # noqa: BLE001
+            pass
+    return False
+
+
 def one_input(ctx, cfg: gen.Config, label: str, data: bytes, rng: random.Random, tag: Any, mutated: bool, limit: int | None = None) -> None:
     fam = _fam(cfg)
+    if (cfg.inner_pickle or fam == "picklefile") and fam not in ("b64", "zlib", "bz2") and _pickle_resource_bomb(data):
+        ctx.count("pickle_resource_bombs_skipped")
+        return
     modes = ["oneshot", "copy"] + (["buffered"] if cfg.is_buffered() else [])
     for mode in modes:
         cuts = gen.random_cuts(rng, len(data)) if len(data) < 5000 else sorted(rng.sample(range(1, len(data)), rng.choice([0, 1, 3, 40])))
